@@ -243,3 +243,28 @@ func H_C07(v *zzverif.T) {
 		c07Check[float32](v)
 	}
 }
+
+func init() { zzverif.Register("opset13.H_C07_types", H_C07_types) }
+
+// H_C07_types: the data input of the shape operators may have EVERY tensor element type (the 14 of the
+// opset: 8 integer types, 2 float types, 2 complex types, string, bool). The element type is one solver
+// variable; only the input gate is exercised (the tensor is a shape-and-type stand-in without data).
+//
+// case: op
+func H_C07_types(v *zzverif.T) {
+	op := v.CStr("op")
+	o, err, p := zzInitOp(v, op, nil)
+	v.Assert("C07.types.init", !p && err == nil)
+	if p || err != nil {
+		return
+	}
+	inputs := []tensor.Tensor{v.DtypeTensor("x")}
+	switch op {
+	case "Reshape", "Squeeze", "Unsqueeze":
+		inputs = append(inputs, zzverif.NewTensor([]int64{0}, []int{1}))
+	}
+	var verr error
+	panicked := v.Try(func() { _, verr = o.ValidateInputs(inputs) })
+	v.Assert("C07.types.gate-never-panics", !panicked)
+	v.Assert("C07.every-element-type-is-accepted", verr == nil)
+}
